@@ -873,6 +873,21 @@ def run(chk: lib.Check):
             continue
         one(f"label:{i}", dg, svg, replay)
 
+    # ---------------- (b3) sizes: labelled boxes from far too small for their icon and label up to roomy ("rendering ANY diagram")
+    for cls in ("LogicalComponent", "LogicalFunction", "Class", "Note", "Requirement"):
+        for w_, h_ in ((1, 40), (5, 40), (12, 40), (20, 40), (24, 40), (30, 40), (60, 40), (60, 1), (60, 8), (3, 3)):
+            spec = {"dc": None, "elems": [{"kind": 0, "cls": cls, "label": "hello small world", "size": (w_, h_), "floats": []}]}
+            replay = {"source": "generated-size", "spec": spec}
+            orc.stats["size_probes"] = orc.stats.get("size_probes", 0) + 1
+            try:
+                dg = gen.build(spec)
+                svg = to_svg(dg)
+            except Exception as e:  # noqa: BLE001
+                orc.stats["render_errors"] += 1
+                chk.violation(f"render-raises:narrow-box:{type(e).__name__}", f"a labelled {cls} box of size {w_}x{h_}: rendering raises {e!r}", replay)
+                continue
+            one(f"size:{cls}:{w_}x{h_}", dg, svg, replay)
+
     # ---------------- (c) probes for the parts of the statement that the current code refutes
     probes = [
         ("probe:symbol-fallback", {"dc": None, "elems": [{"kind": 3, "cls": "NoSuchClass"}]}, None),
